@@ -1,11 +1,133 @@
-import ScryerModel.Model.Resync
+import ScryerModel.Proofs.Resync
+import ScryerModel.Model.Quote
 /-!
 # C17 — Malformed input never crashes or desynchronises the reader
+
+`Model/Resync.lean` mirrors `Lexer::next_token` and everything below it (`lexer.rs`), `read_tokens`
+(`parser.rs`), `MachineState::read` (`read.rs`) and the loop "read until end_of_file", keeping only
+positions: a token / a lexical error is its kind and the remaining input. `fixed = true` (and the
+functions `skipToEnd`, `readClause`, `reads`) is the REPAIRED reader (findings C17-1, C17-2, C17-3);
+`fixed = false`, `readClausePinned`, `readsPinned` is the pinned code. `u : UC` = Rust's Unicode
+predicates (parameters). All theorems hold for every character list (no length bound) and every `u`.
+
+What is NOT proved here: the shift/reduce parser proper is not modelled (a parser error is raised
+after the whole clause has been consumed, so it cannot desynchronise the reader; that it does not
+panic is only tested), and `reads (c ++ rest) = outcome c :: reads rest` is proved in the form
+"`reads s` = first outcome :: `reads` (what that read left)" (`C17_reads_compositional`), not for
+an arbitrary textual concatenation (the tie checks that form on the model and the implementation).
 -/
 namespace Scryer.C17
 open Scryer.Resync Scryer.CharClass
 
-/-- placeholder while the pipeline is brought up -/
-theorem C17_skipQ_nil (q : Char) : skipQ q [] = [] := rfl
+/-- Tokenizer totality and progress: on ANY input `next_token` returns a token or a lexical error,
+    never panics (`token.pop().unwrap()` is never reached with an empty token); a token consumes at
+    least one character, so does every error except "end of input", which is only reported with the
+    input exhausted. (The definitions themselves are structural recursions: Lean accepted them as
+    terminating without fuel.) -/
+theorem C17_tokenizer_total_progress (u : UC) (s : List Char) :
+    nextTok u true s ≠ .panic ∧
+    (∀ k rest, nextTok u true s = .tok k rest → rest.length < s.length) ∧
+    (∀ e rest, nextTok u true s = .err e rest → e ≠ .eof → rest.length < s.length) ∧
+    (∀ rest, nextTok u true s = .err .eof rest → rest = []) :=
+  ⟨nextTok_no_panic u s, nextTok_tok_lt u s, nextTok_err_lt u s, nextTok_eof_nil u s⟩
+
+/-- Maximal munch for the run tokens (variables, letter-digit names, graphic names — `runTok` with
+    the class `p`): the token is the longest prefix of class characters; it stops at a character
+    outside the class, and the kind is the one asked for. -/
+theorem C17_maximal_munch (p : Char → Bool) (k k' : Kind) (s rest : List Char)
+    (h : runTok p k s = .tok k' rest) :
+    k' = k ∧ ∃ pre d r, s = pre ++ rest ∧ rest = d :: r ∧ p d = false ∧ ∀ c ∈ pre, p c = true :=
+  runTok_munch p k s k' rest h
+
+/-- End-token detector, soundness: whenever `next_token` reports `End`, the text after the layout
+    stands at a `.` that is followed by layout, `%` or the end of input, and the reader is left
+    just behind the `.` (behind the new line, if that is what follows). -/
+theorem C17_end_detector_sound (u : UC) (f : Bool) (s rest : List Char)
+    (h : nextTok u f s = .tok .endT rest) :
+    ∃ ins t, scanLayout u s = .ok ins t ∧ atEnd u t = true ∧ (rest = t.drop 1 ∨ rest = t.drop 2) :=
+  nextTok_end u f s rest h
+
+/-- End-token detector, completeness: at a token start, `.` followed by layout, `%` or the end of
+    input IS the end token. -/
+theorem C17_end_detector_complete (u : UC) (hu : u.is_uppercase '.' = false) (f ins : Bool) (r : List Char)
+    (h : atEnd u ('.' :: r) = true) :
+    ∃ rest, tokAt u f ins ('.' :: r) = .tok .endT rest ∧ (rest = r ∨ rest = r.drop 1) :=
+  tokAt_dot_end u hu f ins r h
+
+/-- The detector never fires inside a token: whatever follows the opening quote of a quoted atom /
+    string / `0'c` literal, the first digit of a number, the back quote of a back-quoted string, or
+    the first character of a graphic token (`=..`, `.(`, `a.b`'s `.b`), these scanners never yield `End`. -/
+theorem C17_no_end_inside_tokens (u : UC) (s : List Char) :
+    (∀ m st rest, qGo u m st s ≠ .tok .endT rest) ∧
+    (∀ st z n rest, intGo u st z n s ≠ .tok .endT rest) ∧
+    (∀ rest, bqGo u s ≠ .tok .endT rest) ∧
+    (∀ rest, runTok (graphic_token_char u) .name s ≠ .tok .endT rest) := by
+  refine ⟨?_, ?_, ?_, ?_⟩
+  · intro m st rest h; have := qGo_noEnd u m st s; rw [h] at this; exact this
+  · intro st z n rest h; have := intGo_noEnd u st z n s; rw [h] at this; exact this
+  · intro rest h; have := bqGo_noEnd u s; rw [h] at this; exact this
+  · intro rest h; have := runTok_noEnd (graphic_token_char u) .name s Kind.noConfusion; rw [h] at this; exact this
+
+/-- Skip mode (`Lexer::skip_to_end_token`, the repair) terminates on every input and stops exactly
+    behind an end token, or at the end of the input. -/
+theorem C17_skip_total (u : UC) (s : List Char) :
+    ∃ r, skipToEnd u s = some r ∧ r.length ≤ s.length ∧
+      (r = [] ∨ ∃ s', nextTok u true s' = .tok .endT r) := by
+  obtain ⟨r, hr, hle⟩ := skipToEnd_some u s
+  exact ⟨r, hr, hle, skipGo_end u _ _ _ hr⟩
+
+/-- One `read_term` call on any text: it returns (no fuel exhaustion, no panic), never lengthens
+    the input, consumes at least one character unless it reports end_of_file, and — term, parser
+    error or lexical error alike — leaves the reader exactly behind an end token or at the end of
+    the input. -/
+theorem C17_read_resynchronises (u : UC) (s : List Char) :
+    ∃ o rest, readClause u s = some (o, rest) ∧ rest.length ≤ s.length ∧
+      (o ≠ .eof → rest.length < s.length) ∧
+      (rest = [] ∨ ∃ s', nextTok u true s' = .tok .endT rest) := by
+  obtain ⟨o, r, h, hle, hlt⟩ := readClause_spec u s
+  exact ⟨o, r, h, hle, hlt, readClause_end u s o r h⟩
+
+/-- Reading a text until end_of_file terminates for every text. -/
+theorem C17_reads_total (u : UC) (s : List Char) : ∃ l, reads u s = some l :=
+  readsGo_some u _ s (by simp)
+
+/-- Compositionality of the clause stream: the reads of a text are the outcome of the first read
+    followed by the reads of exactly what that read left — whether the first read delivered a
+    clause or a syntax error; and nothing follows end_of_file. -/
+theorem C17_reads_compositional (u : UC) (s : List Char) :
+    (∀ o rest, readClause u s = some (o, rest) → o ≠ .eof →
+      reads u s = (reads u rest).map fun l => (o, s.length - rest.length) :: l) ∧
+    (∀ rest, readClause u s = some (.eof, rest) → reads u s = some []) :=
+  ⟨reads_step u s, reads_eof u s⟩
+
+/-! ## non-vacuity and witnesses (ASCII instance of the Unicode parameters) -/
+
+abbrev ua : UC := Scryer.Quote.asciiUC
+
+/-- `a 'b\qc' d. good.` (newline): the repaired reader reports the illegal escape, skips through the end token of that
+    clause — the `.` is found although the quoted atom was broken — and then reads `good.` -/
+example : reads ua ['a', ' ', '\'', 'b', '\\', 'q', 'c', '\'', ' ', 'd', '.', ' ', 'g', 'o', 'o', 'd', '.', '\n'] =
+    some [(.error .invalidSingleQuoted, 11), (.clause 1, 7)] := by decide
+
+/-- the pinned reader continues in the middle of the offending clause: `qc`, then a quoted atom
+    opened by the old closing quote swallows `good.`: `good` is never read -/
+example : readsPinned ua 4 ['a', ' ', '\'', 'b', '\\', 'q', 'c', '\'', ' ', 'd', '.', ' ', 'g', 'o', 'o', 'd', '.', '\n'] =
+    [(.error .invalidSingleQuoted, 5), (.error .invalidSingleQuoted, 12)] := by decide
+
+/-- a `.` inside a quoted atom, a graphic token, a number and a `0'.` literal is not an end token -/
+example : reads ua ['\'', 'a', '.', ' ', 'b', '\'', ' ', '=', '.', '.', ' ', '1', '.', '5', ' ', '0', '\'', '.', ' ', '.', '\n', 'x', '.'] =
+    some [(.clause 4, 21), (.clause 1, 2)] := by decide
+
+/-- a character that cannot start a token: the pinned reader never consumes it (the same error for
+    ever), the repaired reader consumes it, skips through `.` and goes on -/
+example : readsPinned ua 3 ['\x01', ' ', 'b', '.', ' ', 'c', '.'] =
+    [(.error .unexpectedChar, 0), (.error .unexpectedChar, 0), (.error .unexpectedChar, 0)] := by decide
+example : reads ua ['\x01', ' ', 'b', '.', ' ', 'c', '.'] = some [(.error .unexpectedChar, 4), (.clause 1, 3)] := by decide
+
+/-- the hypothesis of `C17_end_detector_complete` holds for the ASCII instance -/
+example : ua.is_uppercase '.' = false := by decide
+
+/-- layout and comments after the last clause are end_of_file, not a clause (C17-3) -/
+example : reads ua ['a', '.', '\n', '\n', '%', ' ', 'c', '\n'] = some [(.clause 1, 3)] := by decide
 
 end Scryer.C17
